@@ -1684,6 +1684,131 @@ def m_ok_or(I, st, t, args, site, depth):
     return out
 
 
+def _split(I, st, t, v):
+    """split an Option or a Result by the callee's type: -> [(state, good?, payload, rebuild(payload) for the same variant)]"""
+    is_opt = "ption" in (t.callee.path or "")
+    out = []
+    if is_opt:
+        for s2, var, payload in split_option(I, st, v):
+            out.append((s2, var == "Some", payload, is_opt))
+    else:
+        for s2, var, payload in split_result(I, st, v):
+            out.append((s2, var == "Ok", payload, is_opt))
+    return out
+
+
+def _same(is_opt, good, payload):
+    if is_opt:
+        return Some(payload) if good else NoneV()
+    return Ok(payload) if good else Err(payload)
+
+
+def m_inspect(I, st, t, args, site, depth):
+    """inspect / inspect_err: run the closure on a reference to the payload, hand the value back unchanged"""
+    on_good = t.callee.name == "inspect"
+    out = []
+    for s2, good, payload, is_opt in _split(I, st, t, args[0]):
+        if good == on_good:
+            for s3, _r in I.invoke(s2, args[1], [payload], depth, site):
+                out.append((s3, _same(is_opt, good, payload)))
+        else:
+            out.append((s2, _same(is_opt, good, payload)))
+    return out
+
+
+def m_map_or(I, st, t, args, site, depth):
+    """map_or(default, f) / map_or_else(default_fn, f)"""
+    lazy = t.callee.name == "map_or_else"
+    out = []
+    for s2, good, payload, is_opt in _split(I, st, t, args[0]):
+        if good:
+            for s3, r in I.invoke(s2, args[2], [payload], depth, site):
+                out.append((s3, r))
+        elif lazy:
+            for s3, r in I.invoke(s2, args[1], [] if is_opt else [payload], depth, site):
+                out.append((s3, r))
+        else:
+            out.append((s2, args[1]))
+    return out
+
+
+def m_unwrap_or_else(I, st, t, args, site, depth):
+    out = []
+    for s2, good, payload, is_opt in _split(I, st, t, args[0]):
+        if good:
+            out.append((s2, payload))
+        else:
+            for s3, r in I.invoke(s2, args[1], [] if is_opt else [payload], depth, site):
+                out.append((s3, r))
+    return out
+
+
+def m_is_and(I, st, t, args, site, depth):
+    """is_some_and / is_ok_and / is_none_or / is_err_and"""
+    nm = t.callee.name
+    out = []
+    for s2, good, payload, is_opt in _split(I, st, t, args[0]):
+        if nm in ("is_some_and", "is_ok_and"):
+            if good:
+                out.extend(I.invoke(s2, args[1], [payload], depth, site))
+            else:
+                out.append((s2, 0))
+        elif nm == "is_err_and":
+            if not good:
+                out.extend(I.invoke(s2, args[1], [payload], depth, site))
+            else:
+                out.append((s2, 0))
+        elif nm == "is_none_or":
+            if good:
+                out.extend(I.invoke(s2, args[1], [payload], depth, site))
+            else:
+                out.append((s2, 1))
+    return out
+
+
+def m_or_else(I, st, t, args, site, depth):
+    """Option::or_else / Result::or_else / Option::or / Result::or / and"""
+    nm = t.callee.name
+    out = []
+    for s2, good, payload, is_opt in _split(I, st, t, args[0]):
+        if nm in ("or", "or_else"):
+            if good:
+                out.append((s2, _same(is_opt, True, payload)))
+            elif nm == "or":
+                out.append((s2, args[1]))
+            else:
+                out.extend(I.invoke(s2, args[1], [] if is_opt else [payload], depth, site))
+        elif nm == "and":
+            out.append((s2, args[1] if good else _same(is_opt, False, payload)))
+    return out
+
+
+def m_then(I, st, t, args, site, depth):
+    """bool::then_some(v) (v is evaluated by the caller, eagerly) / bool::then(f)"""
+    b = args[0]
+    out = []
+    forks = []
+    if isinstance(b, int):
+        forks = [(st, bool(b))]
+    else:
+        for truth in (True, False):
+            s2 = st.fork()
+            if isinstance(b, tuple) and b and b[0] == "cmp":
+                if not I.assume_cmp(s2, b[1], b[2], b[3], truth, b[4]):
+                    continue
+            s2.add_pc(b, truth, site)
+            forks.append((s2, truth))
+    for s2, truth in forks:
+        if not truth:
+            out.append((s2, NoneV()))
+        elif t.callee.name == "then_some":
+            out.append((s2, Some(args[1])))
+        else:
+            for s3, r in I.invoke(s2, args[1], [], depth, site):
+                out.append((s3, Some(r)))
+    return out
+
+
 def m_result_ok(I, st, t, args, site, depth):
     out = []
     for s2, var, payload in split_result(I, st, args[0]):
@@ -2035,6 +2160,27 @@ DEFAULT_MODELS = {
     "std::cmp::max": m_min,
     "std::cmp::Ord::min": m_min,
     "std::cmp::Ord::max": m_min,
+    "std::result::Result::inspect": m_inspect,
+    "std::result::Result::inspect_err": m_inspect,
+    "std::option::Option::inspect": m_inspect,
+    "std::result::Result::map_or": m_map_or,
+    "std::result::Result::map_or_else": m_map_or,
+    "std::option::Option::map_or": m_map_or,
+    "std::option::Option::map_or_else": m_map_or,
+    "std::result::Result::unwrap_or_else": m_unwrap_or_else,
+    "std::option::Option::unwrap_or_else": m_unwrap_or_else,
+    "std::option::Option::is_some_and": m_is_and,
+    "std::option::Option::is_none_or": m_is_and,
+    "std::result::Result::is_ok_and": m_is_and,
+    "std::result::Result::is_err_and": m_is_and,
+    "std::option::Option::or": m_or_else,
+    "std::option::Option::or_else": m_or_else,
+    "std::option::Option::and": m_or_else,
+    "std::result::Result::or": m_or_else,
+    "std::result::Result::or_else": m_or_else,
+    "std::result::Result::and": m_or_else,
+    "core::bool::then_some": m_then,
+    "core::bool::then": m_then,
     "std::convert::TryFrom::try_from": m_try_from_int,
     "std::convert::From::from": m_from_int,
     "std::option::Option::unwrap_or": m_unwrap_or,
